@@ -368,7 +368,136 @@ def ev_kde(case):
     return {"fails": fails[:30], "n": nev, "tags": tags, "slack": slack, "skipped": skipped, "sample": {"sample": spec, "bw": bw, "n_maps_ok": len(ref_rows)}}
 
 
-EVALUATORS = {"multiset": ev_kde, "quantile": ev_kde}
+# ---------------------------------------------------------------------------------------------------------------------
+# call histories on ONE estimator with ONE evaluation-array object that the caller modifies in place between calls
+EVAL_BLOCKS = [["pdf"], ["cdf"], ["pdf", "cdf"], ["cdf", "pdf"]]
+MODS = ["shift", "scale", "reverse", "sort", "refill", "fill", "realloc", "none"]
+HIST_LENGTHS = [33, 1]
+
+
+def history_contents(kind, smin, smax, h, distinct, m, perm):
+    """the contents menus, computed from the data range and h only"""
+    rng = smax - smin
+    if kind == "grid":
+        return (smin - 2.0 * h + (rng + 4.0 * h) * (np.arange(m) / max(m - 1, 1)))[perm] if m > 1 else np.array([smin + 0.25 * rng])
+    if kind == "refill":
+        vals = np.concatenate([distinct, [smin - 30.0 * h, smax + 30.0 * h, smin - 1e3 * h, smax + 1e3 * h], 0.5 * (distinct[1:] + distinct[:-1])])
+        return np.resize(vals[::-1], m).astype(float)
+    raise HarnessError(kind)
+
+
+def apply_mod(x, mod, smin, smax, h, distinct, perm):
+    """modify the caller's array IN PLACE (same object); ('realloc' is done by the caller: it frees the object first)"""
+    rng = smax - smin
+    if mod == "shift":
+        x += 0.37 * rng + h
+    elif mod == "scale":
+        x -= smin
+        x *= 0.5
+        x += smin
+    elif mod == "reverse":
+        x[:] = x[::-1].copy()
+    elif mod == "sort":
+        x.sort()
+    elif mod == "refill":
+        x[:] = history_contents("refill", smin, smax, h, distinct, x.size, perm)
+    elif mod == "fill":
+        x.fill(smin + 0.625 * rng)
+    elif mod != "none":
+        raise HarnessError(mod)
+    return x
+
+
+def ev_history(case):
+    """one sample x one bandwidth mode x one first block of calls: every continuation (modification, block of calls)*"""
+    import inference.pdf.kde as kde_mod
+    from inference.pdf.kde import GaussianKDE
+
+    spec, bw = case["sample"], case["bw"]
+    base = build_sample(spec)
+    sd0 = float(np.std(base))
+    bwc = bw["mode"]
+    scls = sample_class(spec)
+    fails, tags, slack = [], set(), {}
+    nev = 0
+    seen = set()
+
+    def sl(name, v):
+        if v == v and v > slack.get(name, -1.0):
+            slack[name] = float(v)
+
+    for a_exp, b_mult in case["maps"]:
+        a = 2.0**a_exp
+        data = a * base + b_mult * a
+        mapname = f"a=2^{a_exp},b={b_mult:g}a"
+        srt = np.sort(data)
+        smin, smax = float(srt[0]), float(srt[-1])
+        distinct = np.unique(srt)
+
+        def fresh():
+            with lib(f"construct-{bwc}"):
+                return construct(GaussianKDE, kde_mod, data.copy(), bw, a, sd0)
+
+        for m in case["lengths"]:
+            perm = R.stride_permutation(m, case.get("stride")) if m > 1 else np.array([0])
+            for tail in itertools.product(*[MODS if i % 2 == 0 else range(len(EVAL_BLOCKS)) for i in range(2 * case["depth"])]):
+                hist = [case["first"]] + [t if isinstance(t, str) else EVAL_BLOCKS[t] for t in tail]
+                detail = dict(sample=spec, bw=bw, a_exp=a_exp, b_mult=b_mult, length=m, history=hist)
+                k = fresh()
+                h = float(k.h)
+                nreg = len(getattr(k, "slices", ())) or 0
+                x = np.array(history_contents("grid", smin, smax, h, distinct, m, perm))
+                last_mod = "start"
+                for step in hist:
+                    if step == "realloc":
+                        # the old object is freed first, so the new one may get the same address / id
+                        new = history_contents("refill", smin, smax, h, distinct, m, perm)[::-1].tolist()
+                        x = None
+                        x = np.array(new)
+                        last_mod = step
+                        continue
+                    if isinstance(step, str):
+                        x = apply_mod(x, step, smin, smax, h, distinct, perm)
+                        last_mod = step
+                        continue
+                    for meth in step:
+                        before = x.copy()
+                        with lib(f"history-{meth}"):
+                            got = np.asarray(k(x) if meth == "pdf" else k.cdf(x), dtype=float)
+                        kf = fresh()
+                        with lib(f"fresh-{meth}"):
+                            want = np.asarray(kf(before.copy()) if meth == "pdf" else kf.cdf(before.copy()), dtype=float)
+                        nev += 2
+                        if not np.array_equal(x, before):
+                            key = f"history/{bwc}/caller-array-changed-by-{meth}"
+                            if key not in seen:
+                                seen.add(key)
+                                fails.append(fail(key, f"{scls} {mapname}: the evaluation array passed to {meth} was modified by the call", **detail))
+                            x[:] = before
+                        if got.shape != want.shape or not np.array_equal(got, want):
+                            key = f"history/{bwc}/{meth}-after-{last_mod}-differs-from-fresh-estimator"
+                            if key not in seen:
+                                seen.add(key)
+                                d = float(np.abs(got - want).max()) if got.shape == want.shape else float("nan")
+                                fails.append(fail(key, f"{scls} {mapname}: history {hist}: {meth} of the re-used array differs from a fresh estimator on a copy of its contents (max |diff| {d!r}, h={h!r})", h=h, **detail))
+                        # and against the exact kernel sum (the property's own terms), on the current contents
+                        if got.shape == want.shape:
+                            if meth == "pdf":
+                                dv = float(np.abs(got - R.exact_pdf(srt, h, before)).max()) * h / TOL_PDF_H
+                            else:
+                                dv = float(np.abs(got - R.exact_cdf(srt, h, before)).max()) / TOL_CDF
+                            sl(f"history-{meth}-vs-exact/{bwc}", dv)
+                            if not dv <= 1.0:
+                                key = f"history/{bwc}/{meth}-after-{last_mod}-not-faithful"
+                                if key not in seen:
+                                    seen.add(key)
+                                    fails.append(fail(key, f"{scls} {mapname}: history {hist}: {meth} deviates from the exact kernel sum by {dv:.3g} x the convention", h=h, **detail))
+                    if last_mod != "start":
+                        tags.add(f"history|{scls}|{bwc}|{mapname}|len={m}|after-{last_mod}|{'+'.join(step)}|regions={'many' if nreg > 2 else nreg}")
+    return {"fails": fails[:30], "n": nev, "tags": tags, "slack": slack, "sample": {"sample": spec, "bw": bw, "first": case["first"]}}
+
+
+EVALUATORS = {"multiset": ev_kde, "quantile": ev_kde, "history": ev_history}
 
 
 def run(ck):
@@ -433,7 +562,45 @@ def run(ck):
     # heaviest first so the pool stays busy
     qcases.sort(key=lambda c: -(c["sample"]["n"] * (10 if c["bw"]["mode"].startswith("cv") else 1)))
     ck.run_cases("quantile", qcases, chunk=1)
+    # call histories: one estimator, one evaluation-array object modified in place between the calls
+    hsamples = [
+        {"kind": "multiset", "values": [0.0, 0.0, 1.0, 5.0]},
+        {"kind": "multiset", "values": list(alphabets[-1][:3]) + [alphabets[-1][3]] * 2},
+        {"kind": "quantile", "family": "normal", "n": 50, "stride": stride},
+        {"kind": "quantile", "family": "bimodal", "n": 50, "stride": stride},
+        {"kind": "quantile", "family": "outliers", "n": 82, "stride": stride},
+    ]
+    hbws = [{"mode": "user", "factor": 0.1}, {"mode": "user", "factor": 1.0}, {"mode": "rule"}, {"mode": "cv"}]
+    if quick:
+        # quick tier: one multiset (rotating with the seed), the bimodal and the deep-tree sample; three bandwidth modes
+        hsamples = [hsamples[seed % 2], hsamples[3], hsamples[4]]
+        hbws = [hbws[0], hbws[2], hbws[3]]
+    hcases = []
+    for spec in hsamples:
+        for bw in hbws:
+            if bw["mode"] == "cv" and spec.get("family") == "outliers":
+                continue
+            heavy = bw["mode"] == "cv" and not quick
+            for first in EVAL_BLOCKS:
+                hcases.append(
+                    {
+                        "sample": spec,
+                        "bw": bw,
+                        "first": first,
+                        "depth": 1 if quick else 2,
+                        "maps": [[0, 0.0]] if heavy else [[0, 0.0], [-20, 1e6]],
+                        "lengths": HIST_LENGTHS[:1] if heavy else HIST_LENGTHS,
+                        "stride": stride,
+                    }
+                )
+    ck.run_cases("history", hcases, chunk=1)
     ck.rule = (
+        "(call histories) on ONE estimator and ONE evaluation-array object: every sequence block (modification, block)^d with block in "
+        "{pdf, cdf, pdf+cdf, cdf+pdf}, modification in {shift, scale, reverse, sort, refill, fill with a constant, free and re-allocate, none} "
+        "applied IN PLACE to the caller's array, d = 1 (quick) / 2 (thorough), array lengths 33 and 1, for two multisets and three quantile samples "
+        "x {user 0.1 sd, user 1 sd, rule of thumb, cross-validated} x two affine maps (quick tier: one multiset rotating with the seed, the bimodal and the far-outlier sample, three bandwidth modes): every result must equal bit-for-bit what a fresh estimator "
+        "returns for a fresh copy of the current contents, be within the conventions of the exact kernel sum, and the caller's array must be unchanged by the call.  "
+        "(single calls) "
         "every multiset of size 3..5 (>=2 distinct values) over the listed 4-letter alphabets, and quantile samples "
         "{normal, t2, bimodal, two tie-rich} x n in {50, 1000} (quick) / {50, 400, 2000, 5000} (thorough); x bandwidth mode {user 0.1/0.5/1/10 sd, rule of thumb, cross-validated, "
         "cross-validated on a scripted sub-sample} x affine maps a in {2^-20,1,2^10}, b in {0,1e6 a} (quick tier: three of the six maps and every second bandwidth mode, rotating with the seed, for size-5 multisets; three maps for user bandwidths at n=1000); evaluation points: all dyadic "
